@@ -329,7 +329,7 @@ def run(prog, rep):
     import_verdicts(prog, rep, "C10", ("PROV-7",), "CONTENT-1",
                     "`each output parses as RDF with the content of its source`: what odmltordf and the RDF targets of the format converter write is "
                     "the graph RDFWriter builds")
-    import_verdicts(prog, rep, "C15", ("DICT-1", "LOG-1", "TAB-11"), "CONTENT-2",
+    import_verdicts(prog, rep, "C15", ("DICT-1", "LOG-1", "TAB-11", "SAME-1", "DICT-2"), "CONTENT-2",
                     "`each output loads as a current-version document with the content of its source`: odmlconvert / odmltordf convert outdated "
                     "files with VersionConverter")
     from ..report import import_verdicts
